@@ -17,6 +17,7 @@
 # -----------------------------------------------------------------------------
 import asyncio as aio
 import logging
+import struct
 
 from ..encoding.tlv_var import parse_tl_num
 from .ip_face import IpFace
@@ -43,7 +44,11 @@ class UdpFace(IpFace):
 
             def datagram_received(
                     self, data: bytes, addr: tuple[str, int]) -> None:
-                typ, _ = parse_tl_num(data)
+                try:
+                    typ, _ = parse_tl_num(data)
+                except (IndexError, struct.error):
+                    # empty or truncated datagram: not a packet
+                    return
                 aio.create_task(self.callback(typ, data))
                 return
 
